@@ -97,7 +97,7 @@ func scenarioC05(r *Run) {
 		dec := &WireDecoders[i]
 		var err error
 		r.Lib(func() { err = dec.Into(dec.New(), b) })
-		r.Logf("%s: %v", dec.Name, err)
+		r.Logf("%s: %s", dec.Name, errTag(err))
 		if err != nil {
 			continue
 		}
